@@ -10,10 +10,11 @@ import props.mapper_common as mc
 import props.cpu_common as cc
 import props.ppu_common as pc
 import props.audio_common as ac
+import props.wiring as wr
 
 MANIFEST = {
     "level": "proof",
-    "text": "No-panic sweep under proved invariants. Construction: the real newMBC is executed on an arbitrary byte slice (symbolic length up to 16 MiB, symbolic header and contents; prepareROM/prepareRAM loops cut at invariants); every outcome is either a panic (allowed: loading fails) or returns a non-nil controller whose dynamic type satisfies its representation invariant (validNone/valid1/2/3/5: bank registers in range, bank counts a power of two between 2 and 512, RAM bank count 1/4/8/16). Guest programs: under those invariants and the components' invariants (worldOK) every index, slice, nil-dereference, division and explicit panic site reachable from Mapper.Read/Write (every address class x every controller), Mapper.EndMachineCycle (DMA through the real decoder, RTC), DumpRAM, oam.Corrupt and the four corruption patterns, ppu.EndMachineCycle, the PPU render helpers, audio.EndMachineCycle and all register handlers, timer.EndMachineCycle, controller.ButtonAction, and every defined opcode of the CPU (501 opcode lemmas, incl. the dispatch itself) is proved unreachable; the 11 undefined opcodes are proved to reach exactly the deliberate os.Exit and nothing else does. The invariants are the ones proved inductive in C08-C10, C12, C13, C16, C17, C19. Power-on: the first machine cycle of any program is proved to perform no OAM-bug trigger, which covers the window before the PPU's first OAM access establishes plaOK.",
+    "text": "No-panic sweep under proved invariants. Construction: the real newMBC is executed on an arbitrary byte slice (symbolic length up to 16 MiB, symbolic header and contents; prepareROM/prepareRAM loops cut at invariants); every outcome is either a panic (allowed: loading fails) or returns a non-nil controller whose dynamic type satisfies its representation invariant (validNone/valid1/2/3/5: bank registers in range, bank counts a power of two between 2 and 512, RAM bank count 1/4/8/16). Guest programs: under those invariants and the components' invariants (worldOK) every index, slice, nil-dereference, division and explicit panic site reachable from Mapper.Read/Write (every address class x every controller), Mapper.EndMachineCycle (DMA through the real decoder, RTC), DumpRAM, oam.Corrupt and the four corruption patterns, ppu.EndMachineCycle, the PPU render helpers, audio.EndMachineCycle and all register handlers, timer.EndMachineCycle, controller.ButtonAction, and every defined opcode of the CPU (501 opcode lemmas, incl. the dispatch itself) is proved unreachable; the 11 undefined opcodes are proved to reach exactly the deliberate os.Exit and nothing else does. The invariants are the ones proved inductive in C08-C10, C12, C13, C16, C17, C19. Power-on: the first machine cycle of any program is proved to perform no OAM-bug trigger, which covers the window before the PPU's first OAM access establishes plaOK. The base case is discharged on the real gameboy.New (ROM loading and the cgo outputs abstracted): every invariant of worldOK except plaOK holds in the power-on state for every Config; apuOK and the APU clock invariant are proved preserved by every exported method of *Audio.",
     "note": "Trusted: go/ssa, engine semantics, z3. fmt.Sprintf/Println and image.SetRGBA are assumed not to panic. A failing io.Writer makes serial.WriteSB panic by design (environment). display/speakers (cgo) are outside.",
     "technique": "panic-site obligations generated for every index/slice/deref/div/panic instruction of the real go/ssa, discharged under contracts' invariants; constructor-establishes-invariant lemma; z3",
     "design_ref": "DESIGN.md section 4 C11",
@@ -169,7 +170,10 @@ def nopanic_opcode_task(chunk, idx):
 def tasks(ctx):
     ts = [LemmaTask("lemma:construction", construction, ["memory.newMBC", "memory.prepareROM", "memory.prepareRAM", "memory.newMBC1", "memory.newMBC2",
                                                          "memory.newMBC3", "memory.newMBC5", "(*memory.mbc1).updateBanks"]),
-          LemmaTask("lemma:first-cycle", first_cycle, ["(*cpu.CPU).ExecuteMachineCycle (first cycle of each opcode)"])]
+          LemmaTask("lemma:first-cycle", first_cycle, ["(*cpu.CPU).ExecuteMachineCycle (first cycle of each opcode)"]),
+          # base case of the invariants the sweep assumes: the machine gameboy.New builds satisfies every one of them
+          LemmaTask("lemma:power-on", lambda c, e, ce: wr.power_on(c, e, ce, wiring=False), ["gameboy.New", "memory.New", "cpu.New", "ppu.New", "audio.New", "timer.New", "oam.New"])]
+    ts.extend(ac.invariant_task(fn) for fn in ac.exported_audio_methods(ctx))
     # decoder: every class, every controller
     for cls in mc.memory_map():
         for kind in (("mbc1",) if cls[3] != "mbc" else ("none", "mbc1", "mbc2", "mbc3", "mbc5")):
